@@ -420,6 +420,19 @@ pub fn run(op: &str, args: &[&str]) -> Option<String> {
             })
         }
         "sch-types" => Some(types()),
+        // sch-exhausted: a container whose Sequence carries an EXHAUSTED RangeInclusive (0..=0 after one `next()`):
+        // the flag is part of `==` and of `is_empty()`, not of the wire format (finding F26)
+        "sch-exhausted" => {
+            let mut r = 0..=0u64;
+            r.next();
+            let mut defs = std::collections::BTreeMap::new();
+            defs.insert("A".to_string(), Definition::Sequence { length_width: 0, length_range: r, elements: "u8".to_string() });
+            defs.insert("u8".to_string(), Definition::Primitive(1));
+            let c = BorshSchemaContainer::new("A".to_string(), defs);
+            let bytes = borsh::to_vec(&c).ok()?;
+            let back: BorshSchemaContainer = borsh::from_slice(&bytes).ok()?;
+            Some(format!("equal={} validate_before={} validate_after={}", back == c, validate_s(&c), validate_s(&back)))
+        }
         // sch-capture: two items on which the name of a variant's generated inner struct (`<Enum><Variant>`) captures
         // something else (findings F23, F24): NAME|CONTAINER|BYTES-OF-A-VALUE;;...
         "sch-capture" => {
